@@ -22,6 +22,6 @@ UNIT = Unit(
                          ("hir::PackageInterface::from_hir(", "interface_from_hir(", 1), ("crate::typer::check_file_with_env(", "check_file_with_env(", 1),
                          ("GlobalTypeEnv::new()", "global_type_env_new()", 1), (re.compile(r"\.clone\(\)"), ".vclone()", "*")],
            obligation="the returned diagnostics hold the resolver's errors and the typer's",
-           contract="ensures r.3.errors() == hir_errors(files, *deps_interfaces) + typer_errors(lowered(files, *deps_interfaces).0, lowered(files, *deps_interfaces).1, package@, deps_envs),"),
+           contract="ensures r.3.errors() >= hir_errors(files, *deps_interfaces) + typer_errors(lowered(files, *deps_interfaces).0, lowered(files, *deps_interfaces).1, package@, deps_envs),"),
     ],
 )
